@@ -1507,6 +1507,603 @@ def k_list_separator(E, tier):
     return rec
 
 
+def k_list_index(E, tier):
+    """C28: list.index returns the 1-based position of the FIRST element that is `==` to $value, else null.
+    A map acts as the list of its (key value) pairs: a pair matches exactly when $value is an unbracketed,
+    space-separated two-element list whose items are `==` to the key and to the value.  `==` itself
+    (css::Value::eq) is an uninterpreted boolean per comparison here (its own laws: C12 kernels)."""
+    cssv = E.load_enum("css/value.rs", "Value", "css::value::Value")
+    seps = E.load_enum("value/list_separator.rs", "ListSeparator")
+    f = E.find(name_re=r"^list::create_module::\{closure#\d+\}$", contains=['const "value"', "PartialEq>::eq"], not_contains=['const "n"'])
+    rec = Rec("list.index closure", f, E)
+    ctx = E.ctx()
+    vals = {}
+    elems, pairs, lens, items = [], [], {}, {}
+
+    def full(ex, st, x):
+        while isinstance(x, sym.Ref):
+            x = ex.deref(st, x)
+        return x
+
+    def m_src(ex, st, c, a, d):
+        o = sym.Opaque("iter", "iter", ctx)
+        st.events.append(sym.Event("iter", [full(ex, st, a[0])], o, len(st.pc)))
+        return o
+
+    ident = lambda ex, st, c, a, d: a[0]
+
+    def m_next(kind):
+        def m(ex, st, c, a, d):
+            n = sum(1 for e in st.events if e.callee == "next-some")
+            if n >= 3:
+                st.events.append(sym.Event("cut", [], None, len(st.pc)))
+                return sym.Agg(d, "None", {}, 0)
+            some, none = st.fork(), st.fork()
+            idx = sym.Scalar(("bv", 64, False), bvlit(n, 64))
+            if kind == "list":
+                while len(elems) <= n:
+                    elems.append(sym.Opaque("css::value::Value", "elem%d" % len(elems), ctx))
+                item = sym.Ref("val", elems[n])
+            else:
+                while len(pairs) <= n:
+                    i = len(pairs)
+                    pairs.append((sym.Opaque("css::value::Value", "key%d" % i, ctx), sym.Opaque("css::value::Value", "val%d" % i, ctx)))
+                some.cells["P%d" % n] = sym.Agg("pair", None, {"0": pairs[n][0], "1": pairs[n][1]})
+                item = sym.Ref("cell", "P%d" % n)
+            some.events.append(sym.Event("next-some", [kind], None, len(st.pc)))
+            none.events.append(sym.Event("next-none", [kind], None, len(st.pc)))
+            return [(some, sym.Agg(d, "Some", {"0": sym.Agg("tuple", None, {"0": idx, "1": item})}, 1)), (none, sym.Agg(d, "None", {}, 0))]
+        return m
+
+    def m_eq(ex, st, c, a, d):
+        x, y = full(ex, st, a[0]), full(ex, st, a[1])
+        b = ctx.fresh_scalar("bool", "eq")
+        e = sym.Event("eq", a, b, len(st.pc))
+        e.rargs = [x, y]
+        st.events.append(e)
+        return b
+
+    def m_len(ex, st, c, a, d):
+        v = full(ex, st, a[0])
+        if id(v) not in lens:
+            lens[id(v)] = (v, ctx.fresh_scalar(("bv", 64, False), "len"))
+        return lens[id(v)][1]
+
+    def m_index(ex, st, c, a, d):
+        v = full(ex, st, a[0])
+        k = a[1].term if isinstance(a[1], sym.Scalar) else "?"
+        key = (id(v), k)
+        if key not in items:
+            items[key] = (v, k, sym.Opaque("css::value::Value", "item[%s]" % k[-2:], ctx))
+        return sym.Ref("val", items[key][2])
+
+    def m_scalar(ex, st, c, a, d):
+        return sym.Agg("css::value::Value", "SCALAR", {"0": a[0]})
+
+    models = [
+        (r"^<Vec<css::value::Value> as Deref>::deref$", lambda ex, st, c, a, d: sym.Ref("val", full(ex, st, a[0]))),
+        (r"^core::slice::<impl \[css::value::Value\]>::iter$", m_src),
+        (r"^OrderMap::<css::value::Value, css::value::Value>::iter$", m_src),
+        (r"as Iterator>::enumerate$", ident), (r"^<Enumerate<.*> as IntoIterator>::into_iter$", ident),
+        (r"^<Enumerate<std::slice::Iter<'_, css::value::Value>> as Iterator>::next$", m_next("list")),
+        (r"^<Enumerate<std::slice::Iter<'_, \(css::value::Value, css::value::Value\)>> as Iterator>::next$", m_next("map")),
+        (r"^<&?css::value::Value as PartialEq>::eq$", m_eq),
+        (r"^Vec::<css::value::Value>::len$", m_len),
+        (r"^<Vec<css::value::Value> as Index<usize>>::index$", m_index),
+        (r"^css::value::Value::scalar::<", m_scalar),
+    ] + _color_fn_models(E, ctx, vals)
+    ex = sym.Executor(ctx, models=models, unroll=5, feasibility=E.feasibility(ctx))
+    allp = ex.run(f, [sym.Opaque("closure", "self", ctx), sym.Opaque("&ResolvedArgs", "s", ctx)])
+    paths = [p for p in allp if p.status == "return"]
+    rec.paths = len(paths)
+    lst, val = vals.get("list"), vals.get("value")
+    if lst is None or val is None:
+        rec.add("the closure reads $list and $value (shape not recognised)", {"verdict": "inconclusive", "per_solver": {}, "time_s": 0})
+        return rec
+    D = lst.discriminant().term
+    is_list = "(= %s %s)" % (D, bvlit(cssv.index("List"), 64))
+    is_map = "(= %s %s)" % (D, bvlit(cssv.index("Map"), 64))
+    # pair shape of $value
+    VD = val.discriminant().term
+    vopt = val.child("List.1", "std::option::Option<value::list_separator::ListSeparator>")
+    vod = ex.discriminant(vopt).term
+    vsep = vopt.child("Some.0", "value::list_separator::ListSeparator")
+    vsd = ex.discriminant(vsep).term
+    vbra = val.child("List.2", "bool")
+    vvec = val.child("List.0", "std::vec::Vec<css::value::Value>")
+    vlen = [t for (v, t) in lens.values() if v is vvec]
+    seen = set()
+    for i, p in enumerate(paths):
+        if not (isinstance(p.ret, sym.Agg) and p.ret.variant == "Ok"):
+            continue
+        if any(e.callee == "cut" for e in p.events):
+            continue  # beyond the unrolling bound
+        out = p.ret.fields["0"]
+        eqs = [e for e in p.events if e.callee == "eq"]
+        somes = [e for e in p.events if e.callee == "next-some"]
+        nones = [e for e in p.events if e.callee == "next-none"]
+        its = [e for e in p.events if e.callee == "iter"]
+        kind = somes[0].args[0] if somes else (nones[0].args[0] if nones else "single")
+        found = isinstance(out, sym.Agg) and out.variant == "SCALAR"
+        null = isinstance(out, sym.Agg) and out.variant == "Null"
+        if not (found or null):
+            rec.add("path %d: the result is a position or null (shape not recognised)" % i, {"verdict": "inconclusive", "per_solver": {"structural": repr(out)[:60]}, "time_s": 0})
+            continue
+        n = len(somes)
+        tag = "%s/%d/%s" % (kind, n, "found" if found else "null")
+        same = lambda e, x, y: (e.rargs[0] is x and e.rargs[1] is y) or (e.rargs[0] is y and e.rargs[1] is x)
+        if kind == "single":
+            if not eqs and null:
+                # map arm with a $value that is no pair, or nothing compared
+                want = "(and %s (not (and (= %s %s) (= %s %s) (= %s %s) (not %s) %s)))" % (
+                    is_map, VD, bvlit(cssv.index("List"), 64), vod, bvlit(1, 64), vsd, bvlit(seps.index("Space"), 64), vbra.term,
+                    ("(= %s %s)" % (vlen[0].term, bvlit(2, 64))) if vlen else "true")
+                r = E.decide(ctx, p.pc + ["(not %s)" % want], model_names=[D, VD, vod, vsd, vbra.term] + [t.term for t in vlen])
+                rec.add("path %d [%s]: null without a comparison only for a map and a $value that cannot equal a (key value) pair" % (i, tag), r, {"lift": "index-map"})
+                seen.add("map-nopair")
+                continue
+            ok = len(eqs) == 1 and same(eqs[0], lst, val)
+            if not ok:
+                rec.add("path %d [%s]: a single value is compared with $value (shape not recognised)" % (i, tag), {"verdict": "inconclusive", "per_solver": {}, "time_s": 0})
+                continue
+            b = eqs[0].result.term
+            want = "(and (not %s) (not %s) %s)" % (is_list, is_map, ("(and %s (= %s %s))" % (b, out.fields["0"].term, bvlit(1, 32))) if found else "(not %s)" % b)
+            r = E.decide(ctx, p.pc + ["(not %s)" % want])
+            rec.add("path %d [%s]: a non-list value is the one-element list of itself" % (i, tag), r)
+            seen.add("single")
+            continue
+        if len(its) != 1:
+            rec.add("path %d [%s]: one iteration over the list (shape not recognised)" % (i, tag), {"verdict": "inconclusive", "per_solver": {}, "time_s": 0})
+            continue
+        if kind == "list":
+            src_ok = its[0].args[0] is lst.children.get("List.0")
+            wired = src_ok and len(eqs) == n and all(same(eqs[k], elems[k], val) for k in range(n))
+            if not wired:
+                rec.add("path %d [%s]: element k is compared with $value, in order" % (i, tag), {"verdict": "violated", "per_solver": {"structural": "event identity"}, "time_s": 0})
+                continue
+            bs = [e.result.term for e in eqs]
+            if found:
+                want = "(and %s %s %s (= %s %s))" % (is_list, " ".join("(not %s)" % b for b in bs[:-1]) or "true", bs[-1], out.fields["0"].term, bvlit(n, 64))
+            else:
+                want = "(and %s %s)" % (is_list, " ".join("(not %s)" % b for b in bs) or "true")
+            r = E.decide(ctx, p.pc + ["(not %s)" % want])
+            rec.add("path %d [%s]: %s" % (i, tag, "position of the first `==` element, earlier ones all differ" if found else "null only when every element differs"), r)
+            seen.add("list-" + ("found" if found else "null"))
+        else:
+            src_ok = its[0].args[0] is lst.children.get("Map.0")
+            l0 = [o for (v, k, o) in items.values() if v is vvec and k == bvlit(0, 64)]
+            l1 = [o for (v, k, o) in items.values() if v is vvec and k == bvlit(1, 64)]
+            if not (src_ok and l0 and l1 and vlen):
+                rec.add("path %d [%s]: the map's pairs are compared with $value's two items (shape not recognised)" % (i, tag), {"verdict": "inconclusive", "per_solver": {}, "time_s": 0})
+                continue
+            # per iteration: match_k = eq(key_k, item0) and eq(val_k, item1); both comparisons must be about pair k
+            match, bad = [], False
+            rest = list(eqs)
+            for k in range(n):
+                ke = [e for e in rest if same(e, pairs[k][0], l0[0])]
+                ve = [e for e in rest if same(e, pairs[k][1], l1[0])]
+                for e in ke + ve:
+                    rest.remove(e)
+                kt = ke[0].result.term if ke else None
+                vt = ve[0].result.term if ve else None
+                match.append((kt, vt))
+            if rest:
+                rec.add("path %d [%s]: every comparison is key_k == item 0 or value_k == item 1" % (i, tag), {"verdict": "violated", "per_solver": {"structural": "event identity"}, "time_s": 0})
+                continue
+            shape = "(and %s (= %s %s) (= %s %s) (= %s %s) (not %s) (= %s %s))" % (
+                is_map, VD, bvlit(cssv.index("List"), 64), vod, bvlit(1, 64), vsd, bvlit(seps.index("Space"), 64), vbra.term, vlen[0].term, bvlit(2, 64))
+            def is_match(kt, vt):
+                return "(and %s %s)" % (kt, vt) if kt and vt else "false"   # a pair matches only when BOTH were compared and equal
+            def no_match(kt, vt):
+                parts = [("(not %s)" % t) for t in (kt, vt) if t]
+                return "(or %s)" % " ".join(parts) if parts else "false"
+            if found:
+                want = "(and %s %s %s (= %s %s))" % (shape, " ".join(no_match(*m) for m in match[:-1]) or "true", is_match(*match[-1]), out.fields["0"].term, bvlit(n, 64))
+            else:
+                want = "(and %s (or (not %s) (and true %s)))" % (is_map, shape, " ".join(no_match(*m) for m in match))
+            r = E.decide(ctx, p.pc + ["(not %s)" % want], model_names=[VD, vod, vsd, vbra.term, vlen[0].term])
+            rec.add("path %d [%s]: %s" % (i, tag, "position of the first pair whose key AND value are `==` to the two items of an unbracketed space pair" if found
+                                           else "null only when no pair has both its key and its value `==`"), r, {"lift": "index-map"})
+            seen.add("map-" + ("found" if found else "null"))
+    need = {"single", "list-found", "list-null", "map-found", "map-null", "map-nopair"}
+    if not need <= seen:
+        rec.add("all result kinds explored (%s missing)" % sorted(need - seen), {"verdict": "inconclusive", "per_solver": {}, "time_s": 0})
+    rec.notes.append("lists and maps of 0..3 entries explored (loop unrolled 3 times); longer ones follow the same loop body; `==` uninterpreted")
+    return rec
+
+
+# ------------------------------------------------------------------ C29: sass:math plumbing
+
+_RND = {"ceil": "RTP", "floor": "RTN", "trunc": "RTZ", "round": "RNA"}
+
+
+def _math_models(E, ctx, vals):
+    """f64 rounding intrinsics as SMT roundToIntegral; Numeric::new / Into<Value> as transparent constructors."""
+    def m_round(mode):
+        return lambda ex, st, c, a, d: sym.Scalar("f64", "(fp.roundToIntegral %s %s)" % (mode, a[0].term))
+
+    def m_numeric_new(ex, st, c, a, d):
+        v, u = a[0], a[1]
+        st.events.append(sym.Event("Numeric::new", a, None, len(st.pc)))
+        return sym.Agg("value::numeric::Numeric", None, {"0": v, "1": u})
+
+    def m_into_value(ex, st, c, a, d):
+        return sym.Agg("css::value::Value", "Numeric", {"0": a[0]})
+
+    def m_num_from_f64(ex, st, c, a, d):
+        return sym.Agg("value::number::Number", None, {"0": a[0]})
+
+    return [
+        (r"^std::f64::<impl f64>::ceil$", m_round("RTP")), (r"^std::f64::<impl f64>::floor$", m_round("RTN")),
+        (r"^std::f64::<impl f64>::trunc$", m_round("RTZ")), (r"^std::f64::<impl f64>::round$", m_round("RNA")),
+        (r"^Numeric::new::<", m_numeric_new),
+        (r"^<Numeric as std::convert::Into<css::value::Value>>::into$", m_into_value),
+        (r"^<f64 as std::convert::Into<Number>>::into$", m_num_from_f64),
+        (r"^<impl Into<Number> as std::convert::Into<Number>>::into$", lambda ex, st, c, a, d: a[0]),
+    ] + _color_fn_models(E, ctx, vals)
+
+
+def _f64_of_number(ex, st, n):
+    """the f64 inside a Number value (Opaque child or aggregate field 0)"""
+    while isinstance(n, sym.Ref):
+        n = ex.deref(st, n)
+    if isinstance(n, sym.Agg):
+        return n.fields.get("0")
+    if isinstance(n, sym.Opaque):
+        return n.child("0", "f64")
+    return None
+
+
+def k_math_bounding(E, tier):
+    """C29: math.ceil / floor / round / abs apply exactly that rounding to the magnitude and keep the unit
+    (the rounding functions themselves: E1 c29_* harnesses over Number::ceil/floor/round/trunc/abs)."""
+    targets = [
+        ("ceil", dict(name_re=r"math::create_module::\{closure#\d+\}$", contains=["Number::ceil"]), "(fp.roundToIntegral RTP %s)"),
+        ("floor", dict(name_re=r"math::create_module::\{closure#\d+\}$", contains=["Number::floor"]), "(fp.roundToIntegral RTN %s)"),
+        ("round", dict(name="sass_round"), "(fp.roundToIntegral RNA %s)"),
+        ("abs", dict(name="sass_abs"), "(fp.abs %s)"),
+    ]
+    rec = None
+    for fname, loc, spec in targets:
+        f = E.find(**loc)
+        if rec is None:
+            rec = Rec("math.ceil / floor / round / abs", f, E)
+        ctx = E.ctx()
+        vals = {}
+        ex = sym.Executor(ctx, models=_math_models(E, ctx, vals), inline=[r"^Number::(ceil|floor|round|trunc|abs)$"], feasibility=E.feasibility(ctx))
+        arg0 = [sym.Opaque("closure", "self", ctx)] if len(f.params) == 2 else []
+        paths = [p for p in ex.run(f, arg0 + [sym.Opaque("&ResolvedArgs", "s", ctx)]) if p.status == "return"]
+        rec.paths += len(paths)
+        okp = [p for p in paths if isinstance(p.ret, sym.Agg) and p.ret.variant == "Ok"]
+        num = vals.get("number")
+        if not okp or num is None:
+            rec.add("math.%s: an Ok path reading $number exists (shape not recognised)" % fname, {"verdict": "inconclusive", "per_solver": {}, "time_s": 0})
+            continue
+        for i, p in enumerate(okp):
+            v = p.ret.fields["0"]
+            inner = v.fields.get("0") if isinstance(v, sym.Agg) and v.variant == "Numeric" else None
+            if not (isinstance(inner, sym.Agg) and "0" in inner.fields and "1" in inner.fields):
+                rec.add("math.%s path %d: the result is a number built by Numeric::new (shape not recognised)" % (fname, i),
+                        {"verdict": "inconclusive", "per_solver": {"structural": repr(v)[:60]}, "time_s": 0})
+                continue
+            x = _f64_of_number(ex, p, num.child("0", "value::number::Number"))
+            r = _f64_of_number(ex, p, inner.fields["0"])
+            unit_same = inner.fields["1"] is num.children.get("1")
+            rec.add("math.%s path %d: the unit of $number is passed through unchanged" % (fname, i),
+                    {"verdict": "holds" if unit_same else "violated", "per_solver": {"structural": "identity"}, "time_s": 0})
+            if not (isinstance(x, sym.Scalar) and isinstance(r, sym.Scalar)):
+                rec.add("math.%s path %d: magnitude in, magnitude out (shape not recognised)" % (fname, i), {"verdict": "inconclusive", "per_solver": {}, "time_s": 0})
+                continue
+            res = E.decide(ctx, p.pc + ["(not (= %s %s))" % (r.term, spec % x.term)], model_names=[x.term])
+            rec.add("math.%s path %d: the magnitude is %s of the argument's, bit for bit (NaN and signed zeros included)" % (fname, i, spec % "x"), res, {"lift": "math1:" + fname})
+    return rec
+
+
+def k_math_percentage(E, tier):
+    """C29: math.percentage(x) = x * 100 with the unit %."""
+    units = E.load_enum("value/unit.rs", "Unit")
+    f = E.find(name_re=r"^numeric::<impl at .*>::percentage$")
+    rec = Rec("Numeric::percentage", f, E)
+    ctx = E.ctx()
+    vals = {}
+    x = ctx.fresh_scalar("f64", "x")
+    ex = sym.Executor(ctx, models=_math_models(E, ctx, vals), inline=[r"^<Number as Mul<i64>>::mul$"], feasibility=E.feasibility(ctx))
+    paths = [p for p in ex.run(f, [sym.Agg("value::number::Number", None, {"0": x})]) if p.status == "return"]
+    rec.paths = len(paths)
+    for i, p in enumerate(paths):
+        n = p.ret
+        if not (isinstance(n, sym.Agg) and "0" in n.fields):
+            rec.add("path %d: result built by Numeric::new (shape not recognised)" % i, {"verdict": "inconclusive", "per_solver": {}, "time_s": 0})
+            continue
+        r = _f64_of_number(ex, p, n.fields["0"])
+        u = n.fields["1"]
+        rec.add("path %d: the unit is %%" % i, {"verdict": "holds" if isinstance(u, sym.Agg) and u.variant == "Percent" else "violated",
+                                              "per_solver": {"structural": repr(u)[:40]}, "time_s": 0})
+        if not isinstance(r, sym.Scalar):
+            rec.add("path %d: magnitude (shape not recognised)" % i, {"verdict": "inconclusive", "per_solver": {}, "time_s": 0})
+            continue
+        res = E.decide(ctx, p.pc + ["(not (= %s (fp.mul RNE %s %s)))" % (r.term, x.term, f64lit(100.0))], model_names=[x.term])
+        rec.add("path %d: the magnitude is x * 100 (one correctly rounded multiplication)" % i, res, {"lift": "math1:percentage"})
+    if not paths:
+        rec.add("a path exists", {"verdict": "inconclusive", "per_solver": {}, "time_s": 0})
+    # the closure: a unitless $number handed to Numeric::percentage
+    g = E.find(name_re=r"math::create_module::\{closure#\d+\}$", contains=["Numeric::percentage"])
+    ctx2 = E.ctx()
+    vals2 = {}
+
+    def m_pct(ex_, st, c, a, d):
+        st.events.append(sym.Event("percentage", a, None, len(st.pc)))
+        return sym.Opaque("Numeric", "pct", ctx2)
+
+    ex2 = sym.Executor(ctx2, models=[(r"^Numeric::percentage::<", m_pct)] + _math_models(E, ctx2, vals2), feasibility=E.feasibility(ctx2))
+    p2 = [p for p in ex2.run(g, [sym.Opaque("closure", "self", ctx2), sym.Opaque("&ResolvedArgs", "s", ctx2)]) if p.status == "return"]
+    rec.paths += len(p2)
+    ok2 = [p for p in p2 if isinstance(p.ret, sym.Agg) and p.ret.variant == "Ok"]
+    for i, p in enumerate(ok2):
+        ev = [e for e in p.events if e.callee == "percentage"]
+        chk = [n for n in p.notes if n.startswith("checker:number:")]
+        good = len(ev) == 1 and ev[0].args[0] is vals2.get("number") and chk and "unitless" in chk[0]
+        rec.add("closure path %d: $number is checked to be unitless and handed to Numeric::percentage" % i,
+                {"verdict": "holds" if good else "violated", "per_solver": {"structural": "event identity %s" % chk}, "time_s": 0})
+    if not ok2:
+        rec.add("the percentage closure has an Ok path", {"verdict": "inconclusive", "per_solver": {}, "time_s": 0})
+    return rec
+
+
+def k_math_clamp(E, tier):
+    """C29: math.clamp($min, $number, $max) returns one of its three arguments: $min when $number <= $min
+    (also when the bounds cross), else $max when $number >= $max, else $number; $number and $max must have
+    units compatible with $min's (both unitless or both with units)."""
+    f = E.find(name_re=r"math::create_module::\{closure#\d+\}$", contains=['const "min"', 'const "max"', "PartialOrd>::ge"])
+    rec = Rec("math.clamp closure", f, E)
+    ctx = E.ctx()
+    vals = {}
+
+    def m_cmp(kind):
+        def m(ex, st, c, a, d):
+            b = ctx.fresh_scalar("bool", kind)
+            e = sym.Event(kind, a, b, len(st.pc))
+            e.rargs = [ex.resolve_ref(st, x) for x in a]
+            st.events.append(e)
+            return b
+        return m
+
+    models = [(r"^<Numeric as PartialOrd>::ge$", m_cmp("ge")), (r"^<Numeric as PartialOrd>::le$", m_cmp("le"))] + _math_models(E, ctx, vals)
+    ex = sym.Executor(ctx, models=models, feasibility=E.feasibility(ctx))
+    paths = [p for p in ex.run(f, [sym.Opaque("closure", "self", ctx), sym.Opaque("&ResolvedArgs", "s", ctx)]) if p.status == "return"]
+    rec.paths = len(paths)
+    okp = [p for p in paths if isinstance(p.ret, sym.Agg) and p.ret.variant == "Ok"]
+    mn, nu, mx = vals.get("min"), vals.get("number"), vals.get("max")
+    seen = set()
+    for i, p in enumerate(okp):
+        v = p.ret.fields["0"]
+        out = v.fields.get("0") if isinstance(v, sym.Agg) and v.variant == "Numeric" else None
+        ge = [e for e in p.events if e.callee == "ge"]
+        le = [e for e in p.events if e.callee == "le"]
+        if out is None or len(ge) != 1 or len(le) != 1 or mn is None or nu is None or mx is None:
+            rec.add("path %d: one `>=` against $max and one `<=` against $min (shape not recognised)" % i, {"verdict": "inconclusive", "per_solver": {}, "time_s": 0})
+            continue
+        b1, b2 = ge[0].result.term, le[0].result.term
+        wired = ge[0].rargs[0] is nu and ge[0].rargs[1] is mx and le[0].rargs[1] is mn
+        # the second comparison is made on the value kept after the first one
+        r1 = E.decide(ctx, p.pc + ["(not %s)" % b1])["verdict"] == "holds"   # b1 true on this path
+        kept = mx if r1 else nu
+        wired = wired and le[0].rargs[0] is kept
+        if not wired:
+            rec.add("path %d: $number >= $max is tested first, then the kept value <= $min" % i, {"verdict": "violated", "per_solver": {"structural": "event identity"}, "time_s": 0})
+            continue
+        r2 = E.decide(ctx, p.pc + ["(not %s)" % b2])["verdict"] == "holds"
+        want = mn if r2 else kept
+        which = "min" if want is mn else ("max" if want is mx else "number")
+        seen.add(which)
+        rec.add("path %d: returns $%s, the argument the comparisons select" % (i, which),
+                {"verdict": "holds" if out is want else "violated", "per_solver": {"structural": "identity"}, "time_s": 0})
+    if seen != {"min", "max", "number"}:
+        rec.add("all three outcomes are present (%s)" % sorted(seen), {"verdict": "violated" if okp else "inconclusive", "per_solver": {}, "time_s": 0})
+    # the unit check applied to $number and $max
+    inner = [g for g in E.funcs if g.name.startswith(f.name + "::{closure#")]
+    n_ok = 0
+    for g in inner:
+        ctx2 = E.ctx()
+        minv = sym.Opaque("Numeric", "min_v", ctx2)
+        cand = sym.Opaque("Numeric", "v", ctx2)
+        flags = {}
+
+        def m_try_from(ex_, st, c, a, d):
+            ok, err = st.fork(), st.fork()
+            return [(ok, sym.Agg(d, "Ok", {"0": cand}, 0)), (err, sym.Agg(d, "Err", {"0": sym.Opaque("IsNot", "e", ctx2)}, 1))]
+
+        def m_flag(kind):
+            def m(ex_, st, c, a, d):
+                key = (kind,) + tuple(id(ex_.resolve_ref(st, x)) for x in a)
+                if key not in flags:
+                    flags[key] = (ctx2.fresh_scalar("bool", kind), [ex_.resolve_ref(st, x) for x in a])
+                return flags[key][0]
+            return m
+
+        ex2 = sym.Executor(ctx2, models=[(r"^<Numeric as TryFrom<css::value::Value>>::try_from$", m_try_from), (r"^Numeric::is_no_unit$", m_flag("no_unit")),
+                                         (r"^UnitSet::is_compatible$", m_flag("compat"))] + BASE_MODELS, feasibility=E.feasibility(ctx2))
+        env = sym.Agg("closure", None, {"0": sym.Ref("val", minv), "min_v": sym.Ref("val", minv)})
+        try:
+            ps = [p for p in ex2.run(g, [sym.Ref("val", env), sym.Opaque("css::value::Value", "value", ctx2)]) if p.status == "return"]
+        except sym.Unsupported:
+            continue
+        nu_v = [t for k, (t, a) in flags.items() if k[0] == "no_unit" and a[0] is cand]
+        nu_m = [t for k, (t, a) in flags.items() if k[0] == "no_unit" and a[0] is minv]
+        comp = [t for k, (t, a) in flags.items() if k[0] == "compat"]
+        if not (nu_v and nu_m and comp):
+            continue
+        accept = "(and (= %s %s) %s)" % (nu_v[0].term, nu_m[0].term, comp[0].term)
+        for j, p in enumerate(ps):
+            if not isinstance(p.ret, sym.Agg) or p.ret.variant not in ("Ok", "Err"):
+                continue
+            if p.ret.variant == "Err" and isinstance(p.ret.fields.get("0"), sym.Agg):
+                continue  # not a number at all
+            if p.ret.variant == "Ok":
+                res = E.decide(ctx2, p.pc + ["(not %s)" % accept])
+                good = p.ret.fields["0"] is cand
+                rec.add("unit check path %d: a number is accepted (unchanged) only when it is unitless exactly when $min is, and its unit is compatible with $min's" % j,
+                        res if good else {"verdict": "violated", "per_solver": {"structural": "identity"}, "time_s": 0})
+                n_ok += 1
+            elif any(e.callee == "from_residual" for e in p.events):
+                continue
+            else:
+                res = E.decide(ctx2, p.pc + [accept])
+                rec.add("unit check path %d: rejected only when the units do not fit $min's" % j, res)
+    if n_ok == 0:
+        rec.add("the unit-compatibility closure was found", {"verdict": "inconclusive", "per_solver": {}, "time_s": 0})
+    return rec
+
+
+def k_find_extreme(E, tier):
+    """C29: math.max / math.min (find_extreme): the result is one of the arguments, namely the one the fold
+    `found = if cmp2(found, v) == Some(pref) { found } else { v }` selects, comparing the running extreme with
+    each later argument in order; a special (calc) argument or a CSS-comparable pair gives no number back
+    (the call is left to CSS), an incomparable pair is an error, and no argument at all is an error."""
+    f = E.find(name="find_extreme")
+    rec = Rec("find_extreme (math.max / math.min)", f, E)
+    for pref in ("Greater", "Less"):
+        ctx = E.ctx()
+        elems = []
+        prefv = sym.Agg("std::cmp::Ordering", pref, {}, 1 if pref == "Greater" else -1)
+
+        def full(ex, st, x):
+            while isinstance(x, sym.Ref):
+                x = ex.deref(st, x)
+            return x
+
+        def m_next(ex, st, c, a, d, elems=elems, ctx=ctx):
+            n = sum(1 for e in st.events if e.callee == "next-some")
+            if n >= 4:
+                st.events.append(sym.Event("cut", [], None, len(st.pc)))
+                return sym.Agg(d, "None", {}, 0)
+            while len(elems) <= n:
+                elems.append(sym.Opaque("sass::functions::num_or_special::NumOrSpecial", "arg%d" % len(elems), ctx))
+            some, none = st.fork(), st.fork()
+            some.events.append(sym.Event("next-some", [], None, len(st.pc)))
+            none.events.append(sym.Event("next-none", [], None, len(st.pc)))
+            return [(some, sym.Agg(d, "Some", {"0": sym.Ref("val", elems[n])}, 1)), (none, sym.Agg(d, "None", {}, 0))]
+
+        def m_ok_or(ex, st, c, a, d):
+            x = a[0]
+            if isinstance(x, sym.Agg) and x.variant == "Some":
+                return sym.Agg(d, "Ok", {"0": x.fields["0"]}, 0)
+            return sym.Agg(d, "Err", {"0": a[1]}, 1)
+
+        def m_cmp2(ex, st, c, a, d, ctx=ctx):
+            o = sym.Opaque("std::option::Option<std::cmp::Ordering>", "cmp2#%d" % sum(1 for e in st.events if e.callee == "cmp2"), ctx)
+            e = sym.Event("cmp2", a, o, len(st.pc))
+            e.rargs = [full(ex, st, x) for x in a]
+            st.events.append(e)
+            return o
+
+        def m_ordeq(ex, st, c, a, d, ctx=ctx):
+            b = ctx.fresh_scalar("bool", "is_pref")
+            e = sym.Event("ordeq", a, b, len(st.pc))
+            e.rargs = [full(ex, st, x) for x in a]
+            st.events.append(e)
+            return b
+
+        def m_may(ex, st, c, a, d, ctx=ctx):
+            b = ctx.fresh_scalar("bool", "may_cmp_css")
+            e = sym.Event("may_cmp_css", a, b, len(st.pc))
+            e.rargs = [full(ex, st, x) for x in a]
+            st.events.append(e)
+            return b
+
+        def m_clone(ex, st, c, a, d):
+            v = full(ex, st, a[0])
+            st.events.append(sym.Event("clone", [v], None, len(st.pc)))
+            return sym.Agg("clone", "CLONE", {"0": v})
+
+        ident = lambda ex, st, c, a, d: a[0]
+        models = [
+            (r"^core::slice::<impl \[NumOrSpecial\]>::iter$", lambda ex, st, c, a, d: sym.Opaque("iter", "iter", ctx)),
+            (r"^<std::slice::Iter<'_, NumOrSpecial> as IntoIterator>::into_iter$", ident),
+            (r"^<std::slice::Iter<'_, NumOrSpecial> as Iterator>::next$", m_next),
+            (r"^Option::<&NumOrSpecial>::ok_or::<", m_ok_or),
+            (r"^cmp2$", m_cmp2), (r"^<std::cmp::Ordering as PartialEq>::eq$", m_ordeq), (r"^may_cmp_css$", m_may),
+            (r"^<Numeric as (Clone>::clone|ToOwned>::to_owned)$", m_clone),
+        ] + BASE_MODELS
+        ex = sym.Executor(ctx, models=models, unroll=7, feasibility=E.feasibility(ctx))
+        paths = [p for p in ex.run(f, [sym.Opaque("&[NumOrSpecial]", "numbers", ctx), prefv]) if p.status == "return"]
+        rec.paths += len(paths)
+        seen = set()
+        for i, p in enumerate(paths):
+            if any(e.callee == "cut" for e in p.events):
+                continue
+            n = sum(1 for e in p.events if e.callee == "next-some")
+            cm = [e for e in p.events if e.callee == "cmp2"]
+            oe = [e for e in p.events if e.callee == "ordeq"]
+            ret = p.ret
+            tag = "%s/%d" % (pref, n)
+            if not isinstance(ret, sym.Agg) or ret.variant not in ("Ok", "Err"):
+                rec.add("path %d [%s]: result shape not recognised" % (i, tag), {"verdict": "inconclusive", "per_solver": {}, "time_s": 0})
+                continue
+            nums = [el.children.get("Num.0") for el in elems[:n]]
+            # replay the fold on this path
+            found = nums[0] if n else None
+            wired = True
+            for k, e in enumerate(cm):
+                v = nums[k + 1] if k + 1 < n else None
+                if not (e.rargs[0] is found and e.rargs[1] is v and v is not None):
+                    wired = False
+                    break
+                if k < len(oe):
+                    o = oe[k]
+                    if not ((o.rargs[0] is e.result.children.get("Some.0") and o.rargs[1] is prefv)):
+                        wired = False
+                        break
+                    keep = E.decide(ctx, p.pc + ["(not %s)" % o.result.term])["verdict"] == "holds"
+                    found = found if keep else v
+            if not wired:
+                rec.add("path %d [%s]: each later argument is compared as cmp2(running extreme, argument) and the outcome tested against the preferred ordering" % (i, tag),
+                        {"verdict": "violated", "per_solver": {"structural": "event identity"}, "time_s": 0})
+                continue
+            if ret.variant == "Ok":
+                opt = ret.fields["0"]
+                if isinstance(opt, sym.Agg) and opt.variant == "Some":
+                    got = opt.fields["0"].fields.get("0") if isinstance(opt.fields["0"], sym.Agg) and opt.fields["0"].variant == "CLONE" else None
+                    ok = n >= 1 and len(cm) == n - 1 and len(oe) == n - 1 and got is found
+                    nodisc = all(E.decide(ctx, p.pc + ["(not (= %s %s))" % (ex.discriminant(elems[k]).term, bvlit(0, 64))])["verdict"] == "holds" for k in range(n))
+                    rec.add("path %d [%s]: returns (a copy of) the argument the fold selects; every argument was a number" % (i, tag),
+                            {"verdict": "holds" if ok and nodisc else "violated", "per_solver": {"structural": "identity"}, "time_s": 0})
+                    seen.add("some")
+                elif isinstance(opt, sym.Agg) and opt.variant == "None":
+                    # left to CSS: the last argument read is special, or the last pair has no ordering but may be compared by CSS
+                    may = [e for e in p.events if e.callee == "may_cmp_css"]
+                    if may:
+                        good = may[-1].rargs[0] is cm[-1].rargs[0] and may[-1].rargs[1] is cm[-1].rargs[1]
+                        r = E.decide(ctx, p.pc + ["(not (and %s (= %s %s)))" % (may[-1].result.term, ex.discriminant(cm[-1].result).term, bvlit(0, 64))])
+                        rec.add("path %d [%s]: left to CSS only when the pair has no ordering and CSS may compare it" % (i, tag),
+                                r if good else {"verdict": "violated", "per_solver": {"structural": "identity"}, "time_s": 0})
+                        seen.add("css-pair")
+                    else:
+                        r = E.decide(ctx, p.pc + ["(not (= %s %s))" % (ex.discriminant(elems[n - 1]).term, bvlit(1, 64))]) if n else {"verdict": "violated", "per_solver": {}, "time_s": 0}
+                        rec.add("path %d [%s]: left to CSS because the argument just read is a special (calc) value" % (i, tag), r)
+                        seen.add("css-special")
+                else:
+                    rec.add("path %d [%s]: Ok payload not recognised" % (i, tag), {"verdict": "inconclusive", "per_solver": {}, "time_s": 0})
+            else:
+                err = ret.fields["0"]
+                if isinstance(err, sym.Agg) and err.variant == "Incompatible":
+                    may = [e for e in p.events if e.callee == "may_cmp_css"]
+                    good = bool(may) and may[-1].rargs[0] is cm[-1].rargs[0] and may[-1].rargs[1] is cm[-1].rargs[1]
+                    r = E.decide(ctx, p.pc + ["(not (and (not %s) (= %s %s)))" % (may[-1].result.term, ex.discriminant(cm[-1].result).term, bvlit(0, 64))]) if good else None
+                    rec.add("path %d [%s]: an error only for a pair with no ordering that CSS cannot compare either" % (i, tag),
+                            r if good else {"verdict": "violated", "per_solver": {"structural": "identity"}, "time_s": 0})
+                    seen.add("incompatible")
+                else:
+                    rec.add("path %d [%s]: `at least one argument` error exactly for an empty argument list" % (i, tag),
+                            {"verdict": "holds" if n == 0 else "violated", "per_solver": {"structural": "path shape"}, "time_s": 0})
+                    seen.add("empty")
+        need = {"some", "css-pair", "css-special", "incompatible", "empty"}
+        if not need <= seen:
+            rec.add("%s: all outcome kinds explored (%s missing)" % (pref, sorted(need - seen)), {"verdict": "inconclusive", "per_solver": {}, "time_s": 0})
+    rec.notes.append("argument lists of 0..4 values (loop unrolled 4 times); cmp2 and may_cmp_css are uninterpreted (Numeric::partial_cmp: C11/C12 kernels)")
+    return rec
+
+
 def k_value_eq_symmetric(E, tier):
     """C12: css::Value::eq is symmetric as a function of the two values' kinds and of the (symmetric)
     comparisons of their parts: eq(a,b) and eq(b,a) are executed symbolically and must be the same
@@ -2713,8 +3310,10 @@ def k_lock_loading(E, tier):
     for i, p in enumerate(p2):
         rm = [e for e in p.events if e.callee == "remove"]
         ok = len(rm) == 1 and rm[0].rargs[1] is key_name
-        rec.add("unlock path %d: removes the registration made under the same name" % i,
-                {"verdict": "holds" if ok else ("inconclusive" if len(rm) != 1 else "violated"), "per_solver": {"structural": "identity"}, "time_s": 0})
+        # a key computed by a function that is not modelled here (e.g. an extracted helper) is an unknown shape, not a wrong key
+        unknown = len(rm) != 1 or (isinstance(rm[0].rargs[1], sym.Opaque) and rm[0].rargs[1].name.startswith("ret."))
+        rec.add("unlock path %d: removes the registration made under the same name%s" % (i, " (shape not recognised)" if unknown and not ok else ""),
+                {"verdict": "holds" if ok else ("inconclusive" if unknown else "violated"), "per_solver": {"structural": "identity"}, "time_s": 0})
     if not p2:
         rec.add("unlock has a path", {"verdict": "inconclusive", "per_solver": {}, "time_s": 0})
     return rec
